@@ -44,6 +44,7 @@ import (
 	"github.com/ethereum/go-ethereum/common"
 	ethcrypto "github.com/ethereum/go-ethereum/crypto"
 
+	stakingprecompile "github.com/haqq-network/haqq/precompiles/staking"
 	"github.com/haqq-network/haqq/utils"
 	liquidvestingtypes "github.com/haqq-network/haqq/x/liquidvesting/types"
 	ucdaotypes "github.com/haqq-network/haqq/x/ucdao/types"
@@ -218,6 +219,89 @@ func chainTx(n *Node, contracts *[]common.Address, t M) ([]byte, error) {
 			return nil, err
 		}
 		bz, _, err := n.EthTxFor(from, &stakingPC, big.NewInt(0), 3_000_000, data)
+		return bz, err
+	case "deploy_agent":
+		// a contract through which accounts reach the staking precompile: calldata word 0 = an address that is first
+		// called with zero value (0 = none), the rest is forwarded to the precompile; a failing precompile call reverts
+		a := newAsm()
+		a.push1(0)
+		a.op(0x35, 0x80, 0x15) // CALLDATALOAD(0) DUP1 ISZERO
+		a.pushLabel("noping")
+		a.op(0x57)
+		a.push1(0)
+		a.push1(0)
+		a.push1(0)
+		a.push1(0)
+		a.push1(0)
+		a.op(0x85, 0x5a, 0xf1, 0x50) // DUP6 (target) GAS CALL POP
+		a.label("noping")
+		a.op(0x50)             // POP target
+		a.push1(0x20)
+		a.op(0x36, 0x03, 0x80, 0x15) // CALLDATASIZE - 32, DUP1, ISZERO
+		a.pushLabel("done")
+		a.op(0x57)
+		a.op(0x80)      // DUP1 n
+		a.push1(0x20)
+		a.push1(0)
+		a.op(0x37)      // CALLDATACOPY(0, 32, n)
+		a.push1(0)
+		a.push1(0)
+		a.op(0x82)      // DUP3 n
+		a.push1(0)
+		a.push1(0)
+		a.push20(stakingPC)
+		a.op(0x5a, 0xf1, 0x15) // GAS CALL ISZERO
+		a.pushLabel("fail")
+		a.op(0x57)
+		a.label("done")
+		a.op(0x00)
+		a.label("fail")
+		a.push1(0)
+		a.push1(0)
+		a.op(0xfd)
+		rt := a.assemble()
+		init := append([]byte{0x61, byte(len(rt) >> 8), byte(len(rt)), 0x80, 0x60, 0x0d, 0x60, 0x00, 0x39, 0x60, 0x00, 0xf3, 0x00}, rt...)
+		nonce := n.App.EvmKeeper.GetNonce(n.Ctx(), ethAddr(from))
+		bz, _, err := n.EthTxFor(from, nil, big.NewInt(0), 400000, init)
+		if err == nil {
+			ad := ethcrypto.CreateAddress(ethAddr(from), nonce)
+			n.Agent = &ad
+		}
+		return bz, err
+	case "pc_approve_agent":
+		if n.Agent == nil {
+			return nil, fmt.Errorf("no agent contract")
+		}
+		data, err := stakingABI.Pack("approve", *n.Agent, coin(str(t, "amt")).Amount.BigInt(), []string{stakingprecompile.DelegateMsg, stakingprecompile.UndelegateMsg})
+		if err != nil {
+			return nil, err
+		}
+		bz, _, err := n.EthTxFor(from, &stakingPC, big.NewInt(0), 3_000_000, data)
+		return bz, err
+	case "agent_delegate", "agent_undelegate":
+		if n.Agent == nil {
+			return nil, fmt.Errorf("no agent contract")
+		}
+		m := map[string]string{"agent_delegate": "delegate", "agent_undelegate": "undelegate"}[str(t, "k")]
+		inner, err := stakingABI.Pack(m, ethAddr(from), val().String(), coin(str(t, "amt")).Amount.BigInt())
+		if err != nil {
+			return nil, err
+		}
+		var ping common.Address
+		switch str(t, "ping") {
+		case "notbonded":
+			ping = common.BytesToAddress(authtypes.NewModuleAddress(stakingtypes.NotBondedPoolName))
+		case "bonded":
+			ping = common.BytesToAddress(authtypes.NewModuleAddress(stakingtypes.BondedPoolName))
+		case "distr":
+			ping = common.BytesToAddress(authtypes.NewModuleAddress(distrtypes.ModuleName))
+		case "fresh":
+			ping = ethAddr(DetKey(w.Cfg.Seed, "pinged"))
+		case "self":
+			ping = ethAddr(from)
+		}
+		data := append(common.LeftPadBytes(ping.Bytes(), 32), inner...)
+		bz, _, err := n.EthTxFor(from, n.Agent, big.NewInt(0), 3_000_000, data)
 		return bz, err
 	case "pc_withdraw":
 		data, err := distrABI.Pack("withdrawDelegatorRewards", ethAddr(from), val().String())
@@ -421,6 +505,22 @@ func chainTx(n *Node, contracts *[]common.Address, t M) ([]byte, error) {
 			return nil, err
 		}
 		return cosmos(500000, msg)
+	case "send_mod":
+		// a bank MsgSend whose recipient is a module account (blocked addresses must stay blocked under every configuration)
+		mods := []string{"distribution", "bonded_tokens_pool", "not_bonded_tokens_pool", "gov", "fee_collector", "erc20", "ucdao"}
+		to := authtypes.NewModuleAddress(mods[int(num(t, "mod", 0))%len(mods)])
+		return cosmos(300000, banktypes.NewMsgSend(from.Addr, to, sdk.NewCoins(coin(str(t, "amt")))))
+	case "gov_erc20_params":
+		// governance switches the ERC20 module (and with it the bank wrapper's conversion path) off or on
+		gov := authtypes.NewModuleAddress("gov")
+		params := n.App.Erc20Keeper.GetParams(n.Ctx())
+		params.EnableErc20 = t["enable"] == true
+		msg, err := govv1.NewMsgSubmitProposal([]sdk.Msg{&erc20types.MsgUpdateParams{Authority: gov.String(), Params: params}},
+			sdk.NewCoins(coin("5000")), from.Addr.String(), "", "t", "s")
+		if err != nil {
+			return nil, err
+		}
+		return cosmos(800000, msg)
 	case "eth_send_mod":
 		// an EVM value transfer whose recipient is a module account
 		mods := []string{"distribution", "bonded_tokens_pool", "not_bonded_tokens_pool", "gov", "fee_collector", "erc20", "ucdao"}
